@@ -98,6 +98,26 @@ def vecOk (s : Store) : Bool :=
            | _, _ => false))
   rowsOk s.succVec s.succMap false && rowsOk s.predVec s.predMap true
 
+/-- entry-level strengthening of `vecOk` (C03), part 1: a traversal list names each neighbour at most once - except
+    that an undirected self-loop is listed twice in its own row (`add_edge` updates both "directions" of the pair,
+    which are the same row). Together with `vecOk` this pins every such entry: its weight is the minimum stored
+    weight between the two nodes (`C03_entry_exact`). Kept apart from `wf`: an invariant of the reachable stores,
+    proved in Props/C03Rows. -/
+def rowsNodup (s : Store) : Bool :=
+  let ok (vec : List (List Adj)) : Bool :=
+    vec.zipIdx.all fun r => decide ((r.1.filter (fun a => s.specs.directed || a.1 != r.2)).map (·.1)).Nodup
+  ok s.succVec && ok s.predVec
+
+/-- part 2: every entry (the doubled self-loop entries included) carries the weight of some edge stored between the
+    two nodes -/
+def entriesStored (s : Store) : Bool :=
+  let ok (vec : List (List Adj)) (swap : Bool) : Bool :=
+    vec.zipIdx.all fun r => r.1.all fun a =>
+      match s.names[r.2]?, s.names[a.1]? with
+      | some x, some y => (if swap then s.weightsBetween y x else s.weightsBetween x y).contains a.2
+      | _, _ => false
+  ok s.succVec false && ok s.predVec true
+
 /-- the whole coupling invariant -/
 def wf (s : Store) : Bool := s.nodesOk && s.edgesOk && s.adjOk && s.vecOk
 
